@@ -7,6 +7,7 @@ CONSTANTS
   Ops = {"newuser","setuser","deluser","getuser","restart","login","update1","update2","update3"}
   SubKinds = {"put","ren","del"}
   Thin = FALSE
+  XPw = TRUE
   Long = TRUE
   Rand = TRUE
 INIT Init
